@@ -14,10 +14,10 @@ CLAIMED = {
               "emit_code, parse_and_bind, every wasm_bindgen export) no call that exposes hash-iteration order, reads "
               "clock/environment/pid/file system/RNG/addresses, or touches process-lifetime state in beff-core is "
               "reachable in the resolved call graph. Every hash-container call is classified (unknown API fails closed). "
-              "This is the right level because determinism is a statement about which APIs can influence a value on any path."),
+              "This is the right level because determinism is a statement about which APIs can influence a value on any path. Also C10.4 (= C14.7): cache-only module lookups never take a key out of an import/export table (what the session has loaded is an ambient input)."),
         note=("Trusted: rustc's MIR and trait resolution; the call-graph over-approximation (closures, fn pointers, callbacks "
               "through local impls of foreign traits); dependency crates (swc, serde_json, std) are assumed deterministic and "
-              "are not analysed; one tabled iteration site (swc comment DashMap, sorted consumer)."),
+              "are not analysed."),
         design="DESIGN.md section 3, C10",
     ),
 }
@@ -31,7 +31,7 @@ CLAIMED["C14"] = dict(
           "process-lifetime state on both sides of the wasm boundary is closed (new static / new field of the cache ADT / new "
           "module-level JS binding fails the check); host queries reachable from the cached computation and never-invalidated "
           "JS caches are reported (2 known findings). A per-path static argument is the right level because the property "
-          "quantifies over all edit histories."),
+          "quantifies over all edit histories. Also C14.7: FileManager::get_existing_file is never asked for a file named by an import/export table entry or a resolver answer."),
     note=("Trusted: rustc MIR normal edges (panics out of scope), swc AST of ts-node/*.ts, the reviewed inventory table. "
           "Histories are not executed; the JS host callbacks are assumed to return current disk state."),
     design="DESIGN.md section 3, C14",
@@ -45,7 +45,7 @@ CLAIMED["C04"] = dict(
           "an swc AST enum or a binding-table enum is a panic; (3) every recursive call that passes a value obtained from a "
           "user-keyed table lookup lies only on cycles that pass a visited/memo mark; (4) every condition-driven loop writes a "
           "loop-carried dependency of its exit condition on every back-edge path. The rules found 3 panics, 1 hang (all repaired by "
-          "fix: commits) and 41 reachable sites that abort the process on witness inputs (known findings, each reproduced)."),
+          "fix: commits) and 41 reachable sites that abort the process on witness inputs (known findings, each reproduced). Also: a successful result loads against the client runtime (C04.5 = the C01 constructor-table and regex-escaping rules)."),
     note=("Trusted: rustc MIR/HIR, the call-graph over-approximation, the reviewed census and two exception tables. Not decided: "
           "promptness, diagnostics' line/column ranges lying inside the file, swc's own parser; dependency crates are not analysed. "
           "The census rule is deliberately conservative: a new panic/unwrap/index site fails until reviewed."),
@@ -77,7 +77,7 @@ CLAIMED["C05"] = dict(
           "touches that family's tables/accessors/constructors (this rule found the named-tuple memo bug, repaired by a fix: "
           "commit); co-inductive memo typestate of both emptiness entry points (lookup first, Undefined read as IsEmpty, "
           "in-progress mark dominates the recursive computation, same key updated afterwards); polarity of the BDD path walk "
-          "and the conjunction table of and_empty_status (truth table). Added later: in the recursive emptiness procedures no owned scratch value defined before a loop is written in the loop and handed to the recursive call without being re-created or restored per iteration (C05.6, with canary controls)."),
+          "and the conjunction table of and_empty_status (truth table). Added later: in the recursive emptiness procedures no owned scratch value defined before a loop is written in the loop and handed to the recursive call without being re-created or restored per iteration (C05.6, with canary controls). Also C05.inv: the C06 arm rules are re-run, since a wrong difference flips assignability."),
     note=("Trusted: rustc typed HIR/MIR, the family naming scheme. Not decided: the emptiness procedures themselves "
           "(Frisch's Phi' on lists, exact-vs-open mapping difference, index signatures) - value-level correctness of all "
           "atom tables has no sound static argument in reach; relies on C06 for the set operations."),
@@ -121,7 +121,7 @@ CLAIMED["C09"] = dict(
           "locals up by the original name; `export {A as B} from` looks A up in the other module and registers B; every kind "
           "of import that an export list can mention registers an export (this rule found the dropped default re-export, "
           "repaired by a fix: commit); the identity types of named types derive Eq/Ord/Hash over all fields incl. the file; "
-          "the lossy file-name mangling has no collision check (1 known finding, reproduced)."),
+          "the lossy file-name mangling has no collision check (1 known finding, reproduced). Also C09.7: the file suffix of a disambiguated name is cut at a min-reduction over all same-named files."),
     note=("Trusted: rustc typed HIR and impl facts. Not decided: equality with the single-file result for all layouts "
           "(relational over programs); the walkers' resolution order; .d.ts/.tsx handling."),
     design="DESIGN.md section 3, C09",
@@ -233,7 +233,7 @@ CLAIMED["C15"] = dict(
           "keyword arm of extract_ts_keyword_type that does not raise a diagnostic or a literal pattern of "
           "maybe_generate_ts_builtin (found `BigInt`; fixed); composite classes print the builtin spellings Array<>, Map<,>, "
           "Set<>, ...Array<>; property keys pass through a quoting step (was violated; fixed); collectDescribeRefs/describe "
-          "test activeRefs/visitedRefs before descending, pair add/delete, and assign definitions under a == null guard."),
+          "test activeRefs/visitedRefs before descending, pair add/delete, and assign definitions under a == null guard. Also C15.6: every return of describeTypeExpr depends on every field the method reads."),
     note="Trusted: rustc typed HIR, swc AST. Not decided: equality (acceptance and hash256) of the second-generation validator.",
     design="DESIGN.md section 3, C15",
 )
